@@ -264,7 +264,8 @@ def _map_cases(tier, rng):
             continue
         q += 1
         r0 = rng.choice(mapped_roots)
-        faults = ["missing-input", "surplus-input", "unknown-storage", "executor-without-parallel", "wrong-rank"]
+        faults = ["missing-input", "surplus-input", "unknown-storage", "executor-without-parallel", "wrong-rank",
+                  "wrong-rank-lower"]
         # zipped dimension mismatch: some index shared by two root arrays
         zipped = []  # (an index name zips two arrays when they carry it in the *same* MapSpec)
         for f in prog["funcs"]:
@@ -283,7 +284,9 @@ def _map_cases(tier, rng):
             yield {"prog": prog, "fault": ft, "target": r0, "zipped": zipped[:1], "seed": rng.randrange(10**6),
                    # (only for faults that do not depend on what the folder held before)
                    "empty_folder": ft in ("unknown-storage", "executor-without-parallel", "surplus-input")
-                   and rng.random() < 0.4}
+                   and rng.random() < 0.4,
+                   # the folder holds what a start that died before writing run_info.json (written last) left behind
+                   "no_run_info": rng.random() < 0.25}
 
 
 def _check_map(case):
@@ -305,6 +308,8 @@ def _check_map(case):
             # the folder exists but holds no run yet (created by the user, or left by an aborted start)
             shutil.rmtree(folder)
             os.makedirs(folder)
+        elif case.get("no_run_info"):
+            os.remove(os.path.join(folder, "run_info.json"))
         before = _snapshot(folder)
         inputs = progs.real_inputs(prog)
         kw = {"parallel": False, "storage": "file_array"}
@@ -331,6 +336,12 @@ def _check_map(case):
         elif fault == "wrong-rank":
             v = np.asarray(inputs[case["target"]], dtype=object)
             inputs[case["target"]] = np.stack([v, v]) if v.ndim >= 1 else v
+        elif fault == "wrong-rank-lower":
+            # an array with too few dimensions (the MapSpec may name only the leading ones and slice the rest)
+            v = np.asarray(inputs[case["target"]], dtype=object)
+            if v.ndim < 2:
+                return []
+            inputs[case["target"]] = v[..., 0]
         elif fault == "zip-mismatch":
             (a, where) = case["zipped"][0]
             nme, axis = where[0]
@@ -432,8 +443,11 @@ def _check_map(case):
                 progs.set_log(None)
         mapped_somewhere = any(n_ == case.get("target") for f in prog["funcs"] if f.get("spec") for n_, _ in f["spec"]["inputs"])
         has_default = any(case.get("target") in f.get("defaults", {}) for f in prog["funcs"])
-        really_faulty = {"missing-input": not has_default, "surplus-input": True, "wrong-rank": mapped_somewhere,
+        really_faulty = {"missing-input": not has_default, "surplus-input": True, "wrong-rank": mapped_somewhere, "wrong-rank-lower": mapped_somewhere,
                          "zip-mismatch": True}.get(fault, False)
+        if case.get("no_run_info") and not (really_faulty or build_prog is not prog
+                                            or fault in ("unknown-storage", "executor-without-parallel")):
+            return bad  # refused only for differing from the previous run: without its run_info.json there is no such run
         if really_faulty and build_prog is prog:
             # the request is ill-formed on its own: also a run without any previous folder (which could refuse the request
             # merely for differing from the previous run) must reject it before user code runs
